@@ -1255,4 +1255,58 @@ theorem minimal_interval_total (dmax : Int) (m : Mgr) (hm : WF m) (now : Int) :
     rw [h2]
     exact minimal_interval_eq m hm now _ h1
 
+
+/-! ### `igris::delegate` (model `Delegate.lean`): the delegate invoked is the one stored, with its
+argument, exactly once -/
+
+/-- for every way of constructing an armed delegate, `invoke(arg)` makes exactly ONE call: of the
+stored function with `arg`; of the stored external function with the stored object pointer (null
+allowed) and `arg`; of the stored member function on the stored object with `arg` -/
+theorem delegate_invokes_stored (arg : Int) :
+    (∀ f, f ≠ 0 → (Dlg.ofFunction f).invoke arg = [Call.function f arg]) ∧
+    (∀ f obj, f ≠ 0 → (Dlg.ofExt f obj).invoke arg = [Call.ext f obj arg]) ∧
+    (∀ fn adj obj, fn ≠ 0 → obj ≠ 0 → adj ≠ BitVec.allOnes 64 →
+      (Dlg.ofMethod fn adj obj).invoke arg = [Call.method fn adj obj arg]) := by
+  refine ⟨fun f hf => ?_, fun f obj hf => ?_, fun fn adj obj hf ho ha => ?_⟩
+  · simp [Dlg.invoke, Dlg.ofFunction, Dlg.armed, hf]
+  · simp [Dlg.invoke, Dlg.ofExt, Dlg.armed, hf]
+  · have ha' : ¬ adj = 18446744073709551615#64 := ha
+    simp [Dlg.invoke, Dlg.ofMethod, Dlg.armed, hf, ho, ha']
+
+example : (1 : Nat) ≠ 0 ∧ (0#64) ≠ BitVec.allOnes 64 := by decide
+
+/-- an unarmed delegate (default constructed, cleaned, or after `invoke_and_reset`) calls nothing;
+a copy calls exactly what the original calls; `invoke_and_reset` makes the call of the delegate as it
+was and leaves it unarmed; `operator==` is "same stored target" -/
+theorem delegate_unarmed_copy_reset (d : Dlg) (arg : Int) :
+    (d.clean.invoke arg = [] ∧ d.clean.armed = false) ∧
+    d.copy.invoke arg = d.invoke arg ∧
+    ((d.invokeAndReset arg).2 = d.invoke arg ∧ (d.invokeAndReset arg).1.invoke arg = [] ∧
+      (d.invokeAndReset arg).1.armed = false) ∧
+    (∀ e : Dlg, d.eq e = true ↔ d = e) := by
+  refine ⟨⟨by simp [Dlg.clean, Dlg.invoke, Dlg.armed], by simp [Dlg.clean, Dlg.armed]⟩, rfl,
+    ⟨rfl, by simp [Dlg.invokeAndReset, Dlg.clean, Dlg.invoke, Dlg.armed],
+      by simp [Dlg.invokeAndReset, Dlg.clean, Dlg.armed]⟩, fun e => ?_⟩
+  cases d; cases e
+  simp [Dlg.eq, and_assoc]
+  constructor
+  · rintro ⟨a, b, c⟩; exact ⟨c, a, b⟩
+  · rintro ⟨a, b, c⟩; exact ⟨b, c, a⟩
+
+/-- exactly once per due deadline: a timer whose `execute()` is `dlg(arg)` makes, in one `exec`, as
+many calls of the stored target as the model makes callbacks of that timer -/
+theorem delegate_once_per_due (d : Dlg) (arg : Int) (c : Call) (hd : d.invoke arg = [c]) (fires : List Fire) :
+    fires.flatMap (fun _ => d.invoke arg) = List.replicate fires.length c := by
+  induction fires with
+  | nil => rfl
+  | cons f fs ih =>
+    rw [List.flatMap_cons, ih, hd, List.length_cons, List.replicate_succ]
+    rfl
+
+/-- where the representation does NOT do what was stored (not reachable through `make_delegate`
+with a valid object): a member function stored with a NULL object pointer is called as a plain
+function (the object test decides METHOD / FUNCTION) -/
+theorem delegate_method_null_object_witness :
+    (Dlg.ofMethod 7 0 0).invoke 1 = [Call.function 7 1] := by decide
+
 end Igris.C16
